@@ -669,6 +669,7 @@ type SpecFile struct {
 	Lemmas    []*Lemma
 	Chans     []map[string]string
 	Dispatch  [][2]string
+	Axioms    []Clause
 }
 
 // ParseSpecText parses the //@ lines of a contract file (or all lines of an
@@ -974,6 +975,12 @@ func ParseSpecText(path string, text string, raw bool) (*SpecFile, error) {
 				lc.Args = append(lc.Args, e)
 			}
 			curLemma.Calls = append(curLemma.Calls, lc)
+		case "axiom":
+			c, err := mkClause(rest, l.no)
+			if err != nil {
+				return nil, err
+			}
+			sf.Axioms = append(sf.Axioms, c)
 		case "chan":
 			m := map[string]string{}
 			fs := strings.Fields(rest)
